@@ -60,7 +60,7 @@ class StepMonitor:
         self.ctx.violation(dict(self.sig, q=q), f"training step {self.step}: {msg}", dict(case=self.case, step=self.step, **(detail or {})))
         self.stop = True  # one report per run
 
-    def compare(self, loss_lib, loss_ref, ps, what="loss", ll=None):
+    def compare(self, loss_lib, loss_ref, ps, what="loss", ll=None, wtol=1e-5):
         """loss value; d loss / d log-likelihood per rollout (= the weight the surrogate gives each rollout: tight, no
         Jacobian amplification); d loss / d theta (looser: the parameter gradient is a small residual of large cancelling
         per-rollout terms, so 1-ulp differences in the advantages are amplified by float32 conditioning)."""
@@ -77,7 +77,7 @@ class StepMonitor:
             wa = torch.zeros_like(ll) if wa is None else wa
             wb = torch.zeros_like(ll) if wb is None else wb
             ctx.count("c16_rollout_weights_compared", int(ll.numel()))
-            if float((wa - wb).abs().max()) > 1e-5 * max(1e-3, float(wb.abs().max())) + 1e-8:
+            if float((wa - wb).abs().max()) > wtol * max(1e-3, float(wb.abs().max())) + 1e-8:
                 r = int((wa - wb).abs().reshape(-1).argmax())
                 self.v("rollout_weight", f"d {what} / d log-likelihood of rollout {r} is {float(wa.reshape(-1)[r]):.6g}, the reference surrogate weights it {float(wb.reshape(-1)[r]):.6g}")
                 return False
@@ -303,14 +303,16 @@ def hook_reinforce(model, mon, kind, B_hint=None):
                     ctx.count("c16_shared_groups_checked", Bn)
             # the library scales the [B, S]-shaped advantages: same values, the running statistics do not depend on the order
             ref = -(scale_adv(adv.t().contiguous()).t().reshape(-1) * flatLL).mean() if scale is not None else -(adv.reshape(-1) * flatLL).mean()
-            mon.compare(out["loss"], ref, ps, ll=flatLL)
+            mon.compare(out["loss"], ref, ps, ll=flatLL, wtol=2e-4 if isinstance(scale, str) else 1e-5)
             ctx.nontrivial_case(dict(c=mon.case, step=mon.step))
             return out
         else:
             raise KeyError(kind)
         adv = scale_adv(Rd - b)
         ref = -(adv * LL).mean() + bl_loss_ref
-        mon.compare(out["loss"], ref, ps, ll=policy_out["log_likelihood"])
+        # running statistics: the library accumulates mean / M2 in float32 (relative error ~1e-5 on the standard deviation after a
+        # few batches, seen at 2e-5 on the thorough tier), the monitor in float64: scaled advantages are compared at 2e-4
+        mon.compare(out["loss"], ref, ps, ll=policy_out["log_likelihood"], wtol=2e-4 if isinstance(scale, str) else 1e-5)
         ctx.nontrivial_case(dict(c=mon.case, step=mon.step))
         return out
 
